@@ -33,12 +33,13 @@ pub fn extreme_args(len: usize) -> Vec<usize> {
 fn instances(ctx: &Ctx, rng: &mut Rng) -> Vec<Vec<bool>> {
     let mut out: Vec<Vec<bool>> = vec![Vec::new(), vec![true], vec![false], vec![false; 77], vec![true; 77]];
     for &n in &[2usize, 63, 64, 65, 128, 511, 512, 513, 4096, 4097] {
+        if cfg!(miri) && n > 130 { continue; }
         for d in [gen::Density::Sparse64, gen::Density::Half, gen::Density::Dense64, gen::Density::One1, gen::Density::AllButOne, gen::Density::Zero, gen::Density::All] {
             out.push(gen::bits(rng, n, d, gen::Shape::Uniform));
         }
     }
     for _ in 0..ctx.size(40, 600) {
-        let n = 1 + rng.below(3000);
+        let n = 1 + rng.below(if cfg!(miri) { 150 } else { 3000 });
         let d = *rng.pick(&gen::DENSITIES);
         let s = *rng.pick(&gen::SHAPES);
         out.push(gen::bits(rng, n, d, s));
@@ -151,13 +152,39 @@ where I: DoubleEndedIterator, I::Item: PartialEq + std::fmt::Debug + Clone
     }
 }
 
+// nth(n) after j items were taken from the BACK: "beyond the remainder" must be judged against what is left.
+fn nth_after_back<I>(ctx: &mut Ctx, label: &str, make: &dyn Fn() -> I, reference: &[I::Item], what: &dyn Fn() -> String)
+where I: DoubleEndedIterator + ExactSizeIterator, I::Item: PartialEq + std::fmt::Debug + Clone
+{
+    let total = reference.len();
+    for j in consumed_points(total) {
+        let rem = total - j;
+        for n in nth_cases(rem) {
+            let want: Option<I::Item> = if n < rem { Some(reference[n].clone()) } else { None };
+            let want_len = if n < rem { rem - n - 1 } else { 0 };
+            let got = guard(|| {
+                let mut it = make();
+                for _ in 0..j { let _ = it.next_back(); }
+                let a = it.nth(n);
+                let l = it.len();
+                let b = it.next_back().is_some();
+                (a, l, b)
+            });
+            let cls = if n >= 1usize << 62 { "extreme" } else if want.is_none() { "past_end" } else { "inside" };
+            ctx.expect_eq(&format!("{}.nth_after_back.{}", label, cls), || format!("{}: {} x next_back(), nth({}) -> (item, len after, more from the back) on {}", label, j, n, what()),
+                &got, &(want, want_len, want_len > 0));
+        }
+    }
+}
+
 fn nth_extremes(ctx: &mut Ctx) {
     let mut rng = Rng::new(ctx.seed ^ 0xC9_1);
     let mut insts: Vec<Vec<bool>> = vec![Vec::new(), vec![true], vec![false], vec![true; 70], vec![false; 70]];
     for &n in &[64usize, 65, 200, 513] {
+        if cfg!(miri) && n > 70 { continue; }
         for d in [gen::Density::Sparse64, gen::Density::Half, gen::Density::Dense64] { insts.push(gen::bits(&mut rng, n, d, gen::Shape::Uniform)); }
     }
-    for _ in 0..ctx.size(12, 200) { let n = 1 + rng.below(700); let d = *rng.pick(&gen::DENSITIES); let s = *rng.pick(&gen::SHAPES); insts.push(gen::bits(&mut rng, n, d, s)); }
+    for _ in 0..ctx.size(12, 200) { let n = 1 + rng.below(if cfg!(miri) { 90 } else { 700 }); let d = *rng.pick(&gen::DENSITIES); let s = *rng.pick(&gen::SHAPES); insts.push(gen::bits(&mut rng, n, d, s)); }
     for (k, bits) in insts.iter().enumerate() {
         if !ctx.mine(k as u64) { continue; }
         if !ctx.begin_case() { continue; }
@@ -175,6 +202,11 @@ fn nth_extremes(ctx: &mut Ctx) {
         nth_back_total(ctx, "bitvector.iter", &|| bv.iter(), bits, &what);
         nth_total(ctx, "bitvector.one_iter", &|| bv.one_iter(), &ones, Some(&|it| it.len()), &what);
         nth_back_total(ctx, "bitvector.one_iter", &|| bv.one_iter(), &ones, &what);
+        nth_after_back(ctx, "bitvector.one_iter", &|| bv.one_iter(), &ones, &what);
+        nth_after_back(ctx, "bitvector.zero_iter", &|| bv.zero_iter(), &zeros, &what);
+        nth_after_back(ctx, "bitvector.iter", &|| bv.iter(), bits, &what);
+        nth_after_back(ctx, "sparse.one_iter", &|| sv.one_iter(), &ones, &what);
+        nth_after_back(ctx, "sparse.iter", &|| sv.iter(), bits, &what);
         nth_total(ctx, "bitvector.zero_iter", &|| bv.zero_iter(), &zeros, Some(&|it| it.len()), &what);
         nth_back_total(ctx, "bitvector.zero_iter", &|| bv.zero_iter(), &zeros, &what);
         if !ones.is_empty() {
@@ -229,8 +261,8 @@ fn wavelet(ctx: &mut Ctx) {
     let mut rng = Rng::new(ctx.seed ^ 0xC9_2);
     let mut vectors: Vec<Vec<u64>> = vec![Vec::new(), vec![0], vec![1], vec![0, 1], vec![1, 0], vec![3, 3, 3], vec![0, 0, 0], vec![5, 0, 5, 2, 7, 7, 1]];
     for _ in 0..ctx.size(60, 800) {
-        let len = 1 + rng.below(200);
-        let width = 1 + rng.below(10);
+        let len = 1 + rng.below(if cfg!(miri) { 24 } else { 200 });
+        let width = 1 + rng.below(if cfg!(miri) { 4 } else { 10 });
         let top = (1u64 << width) - 1;
         let sparse_alpha = rng.chance(1, 2);
         vectors.push((0..len).map(|_| if sparse_alpha { (rng.next_u64() & top) | 1 } else { rng.next_u64() & top }).collect());
